@@ -125,6 +125,27 @@ CHECKS.update({
     ),
 })
 
+CHECKS.update({
+    "C16": (
+        "chk-serde", EX, "bounded-exhaustive enumeration of instances of a recursive serde type family (every shape nested in every other up to a node bound) + complete / structured leaf domains placed in every one-hole context; complete 2^32 sweep of f32 (thorough)",
+        "Structure: every instance with <= 4 (quick) / <= 5 (thorough) nodes of a 15-constructor recursive type covering unit, unit struct, newtype/tuple/plain structs, unit/newtype/tuple/struct variants, Option, tuples, Vec, maps keyed by String and i8. Leaves: every i8/u8/i16/u16 (complete), wide integers at their bounds, every Unicode scalar as char value and char key (complete), strings incl. controls/non-BMP/the reserved token, unit-variant and newtype keys, f64 on every binary exponent x 64 (2048) mantissas x 2 signs, f32 on every exponent x 64 mantissas (quick) / every one of the 2^32 bit patterns (thorough) - in every one-hole context. Oracles: from_value(to_value(x)) == x (floats by bits, -0 may become +0), non-finite floats -> null, to_value(x) has serde_json's shape, serde_json's rendering converted and deserialized gives x.",
+        "Domain guard: a datum is used only if serde_json itself round-trips it. f64 is a structured subset (2^64 values cannot be swept). Numbers are compared by value with serde_json (f32 data after reading both as f32).",
+        "4/C16",
+    ),
+    "C17": (
+        "chk-serde", EX, "bounded-exhaustive enumeration of number spellings (walk of the number DFA up to a length bound) and of all values up to a node bound with duplicate keys in every pattern",
+        "Every JSON number spelling of length <= 7 / <= 8 over 0 1 9 - . e E + plus 20 boundary numbers, bare / array item / object member; every value with <= 5 / <= 6 nodes over leaves {null, 0, 1.5, \"a\"} and keys {a, b, the reserved token}. Serialize with the crate's serializer must reproduce the value exactly (-0 may lose its sign), duplicates collapsing to the first position holding the last value; from_value::<Value> and serde_json::from_str::<Value> must give the same structure with every number denoting the same integer or double.",
+        "Known-finding classes D9a, D9b, D11 are matched by predicates implemented in the check (known_findings.json); the text path is judged against the double serde_json's own deserializer delivers.",
+        "4/C17",
+    ),
+    "C18": (
+        "chk-serde", EX, "bounded-exhaustive enumeration: serde_json numbers in all three representations over structured doubles, every number spelling up to a length bound, every value up to a node bound, both directions",
+        "serde_json side: u64/i64 boundary integers, every binary exponent x 64 (1024) mantissas x 2 signs as Float, every duplicate-free value of <= 5 / <= 6 nodes; json-syntax side: every number spelling of length <= 7 / <= 8, boundary numbers, magnitudes outside double range, std's shortest spellings of the structured doubles, every value of <= 5 / <= 6 nodes. serde_json -> json-syntax -> serde_json must be the identity (also through the From impls); json-syntax -> serde_json -> json-syntax equal up to entry order and number spelling; no panic in either direction.",
+        "Known finding D10 (panic on magnitudes no f64 can represent) is matched by its predicate. f64 is a structured subset.",
+        "4/C18",
+    ),
+})
+
 NOT_YET = {}
 
 props = [json.loads(l) for l in open(f"{root}/properties.jsonl")]
